@@ -540,9 +540,11 @@ DRIVE_RULE = (' In addition (R->T) a driver runs long random block histories (de
               'everything the instances show; TLC (spec/CoreTrace.tla) replays the logged actions on (n, live) and compares every '
               'recorded leaf count, root list, leaf position, proof and update data with spec/Forest.tla; a light client follows every history '
               '(Proof.Update with random remember choices, Proof.Undo) and TLC checks that it holds exactly what it must with the '
-              'canonical proof; every deviating event '
+              'canonical proof; four partial forests follow as well (two verify every block\'s targets again, two verify only what they do '
+              'not remember and prune, ingest and verify-with-remember random sets between blocks) and are dumped after every block: '
+              'leaf index exact, every stored hash true, stored positions between StoredLower and StoredUpper; every deviating event '
               'is reported and confirmed by running its history alone.')
-for _p in ('C01', 'C02', 'C06', 'C07', 'C08', 'C10', 'C11'):
+for _p in ('C01', 'C02', 'C06', 'C07', 'C08', 'C09', 'C10', 'C11'):
     PLAN[_p]['stages'] = (lambda f: (lambda tier, seed: f(tier, seed) + [drive(tier)]))(PLAN[_p]['stages'])
     PLAN[_p]['rule'] += DRIVE_RULE
     for _t in ('quick', 'thorough'):
